@@ -427,6 +427,10 @@ def doc_pool():
     pool["unknown-base-differences"] = three_pages(t1({"Type": Name("Encoding"), "BaseEncoding": Name("NoSuchEncoding"), "Differences": [66, Name("gamma"), 67, Name("delta")]}))
     pool["standard-implicit"] = three_pages(t1())
     pool["macroman-differences"] = three_pages(t1({"Type": Name("Encoding"), "BaseEncoding": Name("MacRomanEncoding"), "Differences": [67, Name("epsilon")]}))
+    # two standard-14 fonts of one name: their width table is the process-wide FONT_METRICS entry itself, keyed by character text
+    std = {"Type": Name("Font"), "Subtype": Name("Type1"), "BaseFont": Name("Helvetica")}
+    pool["standard14-implicit-encoding"] = three_pages(std)
+    pool["standard14-differences"] = three_pages(dict(std, Encoding={"Type": Name("Encoding"), "Differences": [65, Name("W"), Name("i"), Name("M")]}))
     # composite fonts: a predefined CMap, and an embedded CMap that uses it and adds a range (use_cmap must copy)
     cid = {"Type": Name("Font"), "Subtype": Name("CIDFontType0"), "BaseFont": Name("Shared"), "CIDSystemInfo": {"Registry": "Adobe", "Ordering": "Japan1", "Supplement": 2},
            "FontDescriptor": Ref(8), "DW": 1000}
@@ -503,8 +507,8 @@ print(json.dumps(extract_sigs(pool[name], page_numbers=pages)))
 
 
 @bounded("call-histories-interleavings-caching-and-page-subsets", props=["C12"],
-         bound="pool of 10 three-page documents sharing object numbers, font name and encodings (WinAnsi with/without Differences, unknown base encoding with "
-               "Differences, implicit Standard, MacRoman with Differences, Type0 with predefined CMap H, two Type0 fonts sharing one descendant, a horizontal and a vertical font of one character collection, Type0 with an embedded encoding CMap (pdfminer looks such a CMap up by name only: nothing decodes, but the lookup path runs), unbalanced q / text "
+         bound="pool of 12 three-page documents sharing object numbers, font name and encodings (WinAnsi with/without Differences, unknown base encoding with "
+               "Differences, implicit Standard, MacRoman with Differences, two standard-14 Helvetica fonts (implicit encoding / Differences) whose width table is the shared FONT_METRICS entry, Type0 with predefined CMap H, two Type0 fonts sharing one descendant, a horizontal and a vertical font of one character collection, Type0 with an embedded encoding CMap (pdfminer looks such a CMap up by name only: nothing decodes, but the lookup path runs), unbalanced q / text "
                "state across pages). Reference = each document extracted alone in a fresh interpreter process (all pages, and its middle page alone in another fresh process: both must agree). quick: 60 random call histories of length 2..6, all "
                "ordered pairs interleaved page by page, caching off, every single page and page pair extracted separately, the same document three times; thorough: 6000 histories")
 def _(tier, seed):
@@ -692,13 +696,75 @@ def stores_through_shared_attributes():
         tree = ast.parse(open(path).read())
         trees.append((fn, tree))
         for n in ast.walk(tree):
-            if isinstance(n, ast.Assign):
+            if isinstance(n, (ast.Assign, ast.AnnAssign)):
                 v = n.value
                 if isinstance(v, ast.Call) and isinstance(v.func, ast.Attribute) and v.func.attr in SHARED_RETURNING:
-                    for t in n.targets:
+                    for t in (n.targets if isinstance(n, ast.Assign) else [n.target]):
                         for el in (t.elts if isinstance(t, ast.Tuple) else [t]):
                             if isinstance(el, ast.Attribute):
                                 attrs.add(el.attr)
+    # (1b) the same through local names and constructor parameters: `(d, w) = FontMetricsDB.get_metrics(..)`, `widths = cast(.., w)`,
+    # `PDFSimpleFont.__init__(self, d, widths, spec)`, `PDFFont.__init__(self, descriptor, widths)`, `self.widths = resolve_all(widths)`
+    # (resolve_all hands a dict argument back).  Fixpoint over (class, parameter position of __init__) pairs.
+    PASS_THROUGH = ("cast", "resolve_all", "resolve1", "dict_value")
+    inits = {}
+    for fn, tree in trees:
+        for cl in ast.walk(tree):
+            if isinstance(cl, ast.ClassDef):
+                for f in cl.body:
+                    if isinstance(f, ast.FunctionDef) and f.name == "__init__":
+                        inits[cl.name] = (f, [b.id for b in cl.bases if isinstance(b, ast.Name)])
+    shared_params = set()          # (class name, parameter name)
+
+    def carries(e, names):
+        if isinstance(e, ast.Name):
+            return e.id in names
+        if isinstance(e, ast.Call):
+            g = e.func
+            nm = g.id if isinstance(g, ast.Name) else g.attr if isinstance(g, ast.Attribute) else None
+            if nm in SHARED_RETURNING:
+                return True
+            if nm in PASS_THROUGH and e.args:
+                return carries(e.args[-1] if nm == "cast" else e.args[0], names)
+        return False
+    changed = True
+    while changed:
+        changed = False
+        for fn, tree in trees:
+            for cl in ast.walk(tree):
+                if not isinstance(cl, ast.ClassDef):
+                    continue
+                for f in cl.body:
+                    if not isinstance(f, ast.FunctionDef):
+                        continue
+                    names = {pn for (cn, pn) in shared_params if cn == cl.name} if f.name == "__init__" else set()
+                    for _round in range(3):
+                        for n in ast.walk(f):
+                            if isinstance(n, (ast.Assign, ast.AnnAssign)) and n.value is not None and carries(n.value, names):
+                                for t in (n.targets if isinstance(n, ast.Assign) else [n.target]):
+                                    for el in (t.elts if isinstance(t, ast.Tuple) else [t]):
+                                        if isinstance(el, ast.Name):
+                                            names.add(el.id)
+                                        elif isinstance(el, ast.Attribute) and el.attr not in attrs:
+                                            attrs.add(el.attr)
+                                            changed = True
+                    for n in ast.walk(f):
+                        if isinstance(n, ast.Call) and isinstance(n.func, ast.Attribute) and n.func.attr == "__init__":
+                            v = n.func.value
+                            if isinstance(v, ast.Name) and v.id in inits:
+                                target, args = v.id, n.args[1:]
+                            elif isinstance(v, ast.Call) and isinstance(v.func, ast.Name) and v.func.id == "super":
+                                bases = [b for b in inits.get(cl.name, (None, []))[1] if b in inits]
+                                if not bases:
+                                    continue
+                                target, args = bases[0], n.args
+                            else:
+                                continue
+                            params = [a.arg for a in inits[target][0].args.args][1:]
+                            for k, a in enumerate(args):
+                                if k < len(params) and carries(a, names) and (target, params[k]) not in shared_params:
+                                    shared_params.add((target, params[k]))
+                                    changed = True
     out = []
     for fn, tree in trees:
         for f in ast.walk(tree):
@@ -722,7 +788,7 @@ SHARED_ATTR_WRITERS_ALLOWED = {
 
 @exhaustive("inventory-of-stores-through-attributes-holding-shared-objects", props=["C12"],
             note="AST scan: attributes ever assigned from EncodingDB.get_encoding / CMapDB.get_cmap / get_unicode_map / FontMetricsDB.get_metrics (cid2unicode, cmap, "
-                 "unicode_map, ...) are never stored into or mutated through, anywhere in the package")
+                 "unicode_map, ...) - directly, or through local names, cast/resolve_all and constructor parameters (descriptor, widths of a standard-14 font) - are never stored into or mutated through, anywhere in the package")
 def _():
     attrs, hits = stores_through_shared_attributes()
     fails = [dict(file=f, function=fu, line=ln, store=tx, attribute_may_hold="a process-wide table or cached map") for f, fu, ln, tx in hits
